@@ -129,6 +129,10 @@ def run(ctx):
     for s in strs2:
         add(s, None, ctr, ["m"], "prefix")
         add(None, [[s, "v"]], ctr, ["m"], "common-label-name")
+        # both settings at once: each is judged on its own
+        add("Z", [[s, "v"]], ctr, ["m"], "common-label-name")
+        add(s, [["ok", "v"]], ctr, ["m"], "prefix")
+        add(s, [[s, "v"]], ctr, ["m"], "prefix")
     for cn in ("a", "z", "le", "A"):
         add(None, [[cn, "v"]], ctr + vec + his, ["m", "v", "h"], "common-label-vs-metric-label")
         add("Z", [[cn, "v"], ["q", "w"]], ctr + vec, ["v", "m"], "common-label-vs-metric-label")
